@@ -131,7 +131,7 @@ def write_shard(job) -> dict:
         sym = AL.seq_at(idx, 6, L)
         if api == "rdflib" and not all(T.is_rdf11(alpha[i]) for i in sym):
             continue
-        for fs in (1, 2, 3, 4):
+        for fs in (1, 2, 3, 4, 5, 6, 7, 8):
             case = {"side": "write", "api": api, "cls": cls, "entry": entry, "seq": list(sym),
                     "frame_size": fs, "preset": list(preset)}
             acc.evals += 1
@@ -171,6 +171,8 @@ def read_sources(data: bytes, limit: int):
     yield "buffered", io.BufferedReader(faultio.StallRaw(data, limit))
     yield "buffered-chunk5", io.BufferedReader(faultio.StallRaw(data, limit, chunk=5))
     yield "seekable-buffered", io.BufferedReader(faultio.StallRaw(data, limit, seekable=True))
+    yield "rwpair", io.BufferedRWPair(faultio.StallRaw(data, limit), faultio.NullRawWriter())
+    yield "custom-buffered", faultio.PlainBuffered(faultio.StallRaw(data, limit, chunk=5))
 
 
 def run_read_case(case: dict) -> str | None:
@@ -237,7 +239,7 @@ def run(ctx) -> None:
         exhaustive=True,
         samples=merged["samples"],
         rule=(
-            f"write: every sequence of length<={L} over the 'prefix' scope x frame_size 1..4 x "
+            f"write: every sequence of length<={L} over the 'prefix' scope x frame_size 1..8 x "
             "{flat_stream_to_frames, stream_frames} x {Triple,Quad}Stream and GraphStream.graph() "
             "x {generic, rdflib}; states = distinct (frame_size, pulls, rows handed out) "
             "observations, transitions = generator steps (pulls and yields) observed; read: every "
